@@ -129,6 +129,16 @@ CLAIMED = {
              'changed rule) incl. the remembered attributes. The receive-path tuple/list comparison defect is an open known finding.',
         note='pool-based data-independence argument and induction over the per-prefix loop (T5); radix index opaque; CONF.bgp.rib on',
         ref='5 C19'),
+    'C20': dict(
+        text='DefaultHandler under contract against a stated file-system / JSON model: write_msg appends exactly one complete record line '
+             '{t, seq, type, msg} with seq = the counter, counter + 1, flush + fsync (also when msg cannot be serialised; also for a peer name '
+             'that is not lower case); every callback reports exactly one record of its type (keepalive iff configured); rotation keeps the '
+             'counter and continues in a new, empty, newest file; recovery (get_last_seq_and_file / init_msg_file) over ten directory states a '
+             'crash can leave (symbolic sequence numbers) returns the last complete number, never exits, and never appends to an unterminated tail. '
+             'The whole-history reading is a meta-argument over these contracts, cross-checked by a BOUNDED native sweep (real files, crash at '
+             'byte offsets of the last write).',
+        note='T3-fs (file system and json modelled); composition over histories is bounded-checked, not proved; three defects fixed in /repo (7b54f3f, 458941b)',
+        ref='5 C20'),
 }
 checks = []
 for pid, c in CLAIMED.items():
@@ -148,7 +158,7 @@ m = {
                  'kind_free_text': 'home-made contract verifier: symbolic execution of the real /repo AST per function against '
                                    'sidecar contracts, obligations discharged by z3 (cvc5 second back end), native replay under /venv/bin/python'}],
     'checks': checks,
-    'notes': 'fix: commits in /repo (see known_findings.jsonl): 392e84f af6fcf3 5c6aba0 718ac22 a1681d0 ba1e9fe a4d66e3 8bf02f8 8829df2 e0fadd6',
+    'notes': 'fix: commits in /repo (see known_findings.jsonl): 392e84f af6fcf3 5c6aba0 718ac22 a1681d0 ba1e9fe a4d66e3 8bf02f8 8829df2 e0fadd6 c8e5ae4 f673f69 1fe7c6d 3df0c1a 136cffb 7b54f3f 458941b',
     'not_applicable': [{'property_id': p['id'], 'reason': 'check not built yet (build in progress); see DESIGN.md section 5'}
                        for p in props if p['id'] not in CLAIMED],
 }
